@@ -308,13 +308,13 @@ def run(chk):
                     ok = nm == "from_public_point"
                 if not ok:
                     viol.append("%s: `%s`" % (f.qname, ast.unparse(par)[:60]))
-    chk.floor("R08.4", "variables holding unvalidated decoded points", npts, 2)
+    chk.floor("R08.4", "variables holding unvalidated decoded points", npts, 1)
     chk.ob("R08.4", "decoded points are only read (.x()/.y()), returned to the dispatcher or passed to from_public_point", not viol, loc="keys:VerifyingKey", key="C08|R08.4", detail="unvalidated point used otherwise: %s" % viol[:3])
 
     # ---------------- R08.6 SPKI
     dq = "keys:VerifyingKey.from_der"
     res, itd, xd = rest_consumption(W, dq, [VK, buf], watch=("keys:VerifyingKey.from_string", "curves:find_curve"))
-    chk.floor("R08.6", "DER reader calls in VerifyingKey.from_der", len(res), 5)
+    chk.floor("R08.6", "DER reader calls in VerifyingKey.from_der", len(res), 3)
     for e in res:
         chk.ob("R08.6", "from_der: remainder of `%s` consumed or proven empty" % e["site"][2][:60], e["ok"], loc=short(e["site"]), key="C08|R08.6|rest|%s" % e["site"][2][:60], detail=e["why"])
     itd2 = W.interp()
